@@ -4,6 +4,7 @@ import Driver.Rpc
 import Driver.Node
 import Driver.Store
 import Driver.Group
+import Driver.Actor
 /- `dcdriver`: reads a case file on stdin, answers every line with the model's output. -/
 namespace Driver
 
@@ -15,6 +16,7 @@ inductive Dom where
   | node (s : NodeDom.State)
   | store (s : StoreDom.State)
   | group (s : GroupDom.State)
+  | actor (s : ActorDom.State)
 
 def newDom (name : String) (params : List String) : Dom :=
   match name with
@@ -24,6 +26,7 @@ def newDom (name : String) (params : List String) : Dom :=
   | "node" => .node {}
   | "store" => .store {}
   | "group" => .group {}
+  | "actor" => .actor {}
   | _ => .none
 
 def stepDom (d : Dom) (toks : List String) : Dom × String :=
@@ -35,6 +38,7 @@ def stepDom (d : Dom) (toks : List String) : Dom × String :=
   | .node s => let (s', o) := NodeDom.step s toks; (.node s', o)
   | .store s => let (s', o) := StoreDom.step s toks; (.store s', o)
   | .group s => let (s', o) := GroupDom.step s toks; (.group s', o)
+  | .actor s => let (s', o) := ActorDom.step s toks; (.actor s', o)
 
 partial def loop (h : IO.FS.Stream) (out : IO.FS.Stream) (d : Dom) : IO Unit := do
   let line ← h.getLine
